@@ -31,7 +31,7 @@ theorem pv_steps : ∀ (S : List Step) (fs : FS), (fs.steps S).pv = applyEffs (e
 def AllocEff : PEff → Prop
   | .setLen _ => True
   | .hdr _ => True
-  | .bitmap => True
+  | .bitmap _ => True
   | .stats => True
   | _ => False
 
@@ -54,22 +54,22 @@ theorem st_congr : ∀ (E : List PEff) (p p' : PImg), ST p = ST p' → ST (apply
     obtain ⟨hs, ht⟩ := h
     cases e <;> simp [ST, applyEff, hs, ht]
 
-structure PBlk (p0 : PImg) (live : Nat) (allowed covered : List Nat) (nd : Nat) (ps : PS) (acts : List Action)
+structure PBlk (p0 : PImg) (live : Nat) (allowed covered : List Nat) (lo nd : Nat) (ps : PS) (acts : List Action)
     (effs : List PEff) (nd' : Nat) (ps' : PS) : Prop where
   nofail : failOf acts = none
   pager : PagerActs acts
   setpm : OnlySetPm (memUpds acts)
   lastpm : lastPm (memUpds acts) ps.pm = ps'.pm
   sk : SameKey p0.hdr ps'.pm
-  np : ps'.pm.nextPage = nd'
+  np : min ps'.bm ps'.pm.nextPage = nd'
   mono : nd ≤ nd'
-  safe : ∀ fs : FS, AllImgsL live fs (CG p0 live allowed covered nd) →
-    SafeAlong (fun fs => AllImgsL live fs (fun p => ∃ n, CG p0 live allowed covered n p)) fs (ioSteps acts)
-  post : ∀ fs : FS, AllImgsL live fs (CG p0 live allowed covered nd) →
-    AllImgsL live (fs.steps (ioSteps acts)) (CG p0 live allowed covered nd')
+  safe : ∀ fs : FS, AllImgsL live fs (CG p0 live allowed covered lo nd) →
+    SafeAlong (fun fs => AllImgsL live fs (fun p => ∃ n, CG p0 live allowed covered lo n p)) fs (ioSteps acts)
+  post : ∀ fs : FS, AllImgsL live fs (CG p0 live allowed covered lo nd) →
+    AllImgsL live (fs.steps (ioSteps acts)) (CG p0 live allowed covered lo nd')
   vol : ∀ fs : FS, ST (fs.steps (ioSteps acts)).pv = ST (applyEffs effs fs.pv)
 
-variable {p0 : PImg} {live : Nat} {allowed covered : List Nat}
+variable {p0 : PImg} {live lo : Nat} {allowed covered : List Nat}
 
 theorem OnlySetPm.append {a b : List MemUpd} (ha : OnlySetPm a) (hb : OnlySetPm b) : OnlySetPm (a ++ b) := by
   intro u hu
@@ -78,8 +78,8 @@ theorem OnlySetPm.append {a b : List MemUpd} (ha : OnlySetPm a) (hb : OnlySetPm 
   · exact hb u h
 
 theorem PBlk.append {n1 n2 n3 : Nat} {s1 s2 s3 : PS} {a b : List Action} {e1 e2 : List PEff}
-    (ha : PBlk p0 live allowed covered n1 s1 a e1 n2 s2) (hb : PBlk p0 live allowed covered n2 s2 b e2 n3 s3) :
-    PBlk p0 live allowed covered n1 s1 (a ++ b) (e1 ++ e2) n3 s3 where
+    (ha : PBlk p0 live allowed covered lo n1 s1 a e1 n2 s2) (hb : PBlk p0 live allowed covered lo n2 s2 b e2 n3 s3) :
+    PBlk p0 live allowed covered lo n1 s1 (a ++ b) (e1 ++ e2) n3 s3 where
   nofail := by rw [failOf_append, ha.nofail]; simpa using hb.nofail
   pager := ha.pager.append hb.pager
   setpm := by rw [memUpds_append_noFail _ _ ha.nofail]; exact ha.setpm.append hb.setpm
@@ -100,8 +100,8 @@ theorem PBlk.append {n1 n2 n3 : Nat} {s1 s2 s3 : PS} {a b : List Action} {e1 e2 
     rw [ioSteps_append_noFail _ _ ha.nofail, steps_append, hb.vol, applyEffs_append]
     exact st_congr e2 _ _ (ha.vol fs)
 
-theorem PBlk.nil {nd : Nat} {ps : PS} (hsk : SameKey p0.hdr ps.pm) (hnp : ps.pm.nextPage = nd) :
-    PBlk p0 live allowed covered nd ps [] [] nd ps where
+theorem PBlk.nil {nd : Nat} {ps : PS} (hsk : SameKey p0.hdr ps.pm) (hnp : min ps.bm ps.pm.nextPage = nd) :
+    PBlk p0 live allowed covered lo nd ps [] [] nd ps where
   nofail := rfl
   pager := by intro a ha; simp at ha
   setpm := by intro u hu; simp [memUpds] at hu
@@ -116,9 +116,9 @@ theorem PBlk.nil {nd : Nat} {ps : PS} (hsk : SameKey p0.hdr ps.pm) (hnp : ps.pm.
   vol := by intro fs; rfl
 
 /-- a block of steps of the class, with no memory update and no allocation -/
-theorem PBlk.steps {nd : Nat} {ps : PS} (hsk : SameKey p0.hdr ps.pm) (hnp : ps.pm.nextPage = nd)
-    (S : List Step) (hS : ∀ s ∈ S, CStepOK p0 live allowed covered nd s) :
-    PBlk p0 live allowed covered nd ps (S.map ioA) (effsOf S) nd ps := by
+theorem PBlk.steps {nd : Nat} {ps : PS} (hsk : SameKey p0.hdr ps.pm) (hnp : min ps.bm ps.pm.nextPage = nd)
+    (S : List Step) (hS : ∀ s ∈ S, CStepOK p0 live allowed covered lo nd s) :
+    PBlk p0 live allowed covered lo nd ps (S.map ioA) (effsOf S) nd ps := by
   have hio : ioSteps (S.map ioA) = S := by
     induction S with
     | nil => rfl
@@ -148,26 +148,50 @@ theorem PBlk.steps {nd : Nat} {ps : PS} (hsk : SameKey p0.hdr ps.pm) (hnp : ps.p
     rw [hio, pv_steps]
 
 theorem allocA_form (ps : PS) :
-    (allocA ps).2.2 = ps.pm.nextPage ∧ (allocA ps).2.1.pm = { ps.pm with nextPage := ps.pm.nextPage + 1 } ∧
+    (allocA ps).2.2 = min ps.bm ps.pm.nextPage ∧
+    min (allocA ps).2.1.bm (allocA ps).2.1.pm.nextPage = min ps.bm ps.pm.nextPage + 1 ∧
+    SameKey ps.pm (allocA ps).2.1.pm ∧ ps.bm ≤ (allocA ps).2.1.bm ∧
     failOf (allocA ps).1 = none ∧
     ∃ pre, (∀ s ∈ pre, ∃ n pid, s = Step.pg (.setLen n) pid) ∧
-      ioSteps (allocA ps).1 = pre ++ flushSteps { ps.pm with nextPage := ps.pm.nextPage + 1 } := by
-  have hn : ¬ ps.pm.nextPage + 1 ≤ ps.pm.nextPage := Nat.not_succ_le_self _
-  by_cases he : ps.len < ps.pm.nextPage + 1
-  · refine ⟨rfl, by simp [allocA, ensureA], by simp [allocA, ensureA, he, hn, failOf, flushA],
-      [.pg (.setLen (ps.pm.nextPage + 1)) (ps.pm.nextPage + 1)], by simp, ?_⟩
-    simp [allocA, ensureA, he, hn, ioSteps, flushA, flushSteps]
-  · refine ⟨rfl, by simp [allocA, ensureA], by simp [allocA, ensureA, he, hn, failOf, flushA], [], by simp, ?_⟩
-    simp [allocA, ensureA, he, hn, ioSteps, flushA, flushSteps]
+      ioSteps (allocA ps).1 = pre ++ flushSteps (allocA ps).2.1.pm (allocA ps).2.1.bm := by
+  by_cases hh : ps.bm < ps.pm.nextPage
+  · have hg : ¬ ps.pm.nextPage ≤ ps.bm := by omega
+    have hb : ¬ ps.bm < ps.bm := Nat.lt_irrefl _
+    by_cases he : ps.len < ps.bm + 1
+    · refine ⟨by simp [allocA, hh]; omega, by simp [allocA, ensureA, hh, hg, hb]; omega, by simp [allocA, ensureA, hh, hg]; exact SameKey.refl _,
+        by simp [allocA, ensureA, hh, hb], by simp [allocA, ensureA, hh, hg, he, failOf, flushA],
+        [.pg (.setLen (ps.bm + 1)) (ps.bm + 1)], by simp, ?_⟩
+      simp [allocA, ensureA, hh, hg, hb, he, ioSteps, flushA, flushSteps]
+    · refine ⟨by simp [allocA, hh]; omega, by simp [allocA, ensureA, hh, hg, hb]; omega, by simp [allocA, ensureA, hh, hg]; exact SameKey.refl _,
+        by simp [allocA, ensureA, hh, hb], by simp [allocA, ensureA, hh, hg, he, failOf, flushA], [], by simp, ?_⟩
+      simp [allocA, ensureA, hh, hg, hb, he, ioSteps, flushA, flushSteps]
+  · have hg : ¬ ps.pm.nextPage + 1 ≤ ps.pm.nextPage := Nat.not_succ_le_self _
+    have hsk : SameKey ps.pm { ps.pm with nextPage := ps.pm.nextPage + 1 } := ⟨rfl, rfl, rfl, rfl, by simp⟩
+    have hbm : ps.bm ≤ (if ps.pm.nextPage < ps.bm then ps.bm else ps.pm.nextPage + 1) := by split <;> omega
+    have hmin : min (if ps.pm.nextPage < ps.bm then ps.bm else ps.pm.nextPage + 1) (ps.pm.nextPage + 1) =
+        min ps.bm ps.pm.nextPage + 1 := by split <;> omega
+    by_cases he : ps.len < ps.pm.nextPage + 1
+    · refine ⟨by simp [allocA, hh]; omega, by simpa [allocA, ensureA, hh, hg] using hmin, by simpa [allocA, ensureA, hh, hg] using hsk,
+        by simpa [allocA, ensureA, hh, hg] using hbm, by simp [allocA, ensureA, hh, hg, he, failOf, flushA],
+        [.pg (.setLen (ps.pm.nextPage + 1)) (ps.pm.nextPage + 1)], by simp, ?_⟩
+      simp [allocA, ensureA, hh, hg, he, ioSteps, flushA, flushSteps]
+    · refine ⟨by simp [allocA, hh]; omega, by simpa [allocA, ensureA, hh, hg] using hmin, by simpa [allocA, ensureA, hh, hg] using hsk,
+        by simpa [allocA, ensureA, hh, hg] using hbm, by simp [allocA, ensureA, hh, hg, he, failOf, flushA], [], by simp, ?_⟩
+      simp [allocA, ensureA, hh, hg, he, ioSteps, flushA, flushSteps]
+
+theorem steps_flushed_bm (fs : FS) (pre : List Step) (pm : Meta) (bm : Nat) :
+    (fs.steps (pre ++ flushSteps pm bm)).pd.bm = bm := by
+  rw [steps_append]
+  generalize fs.steps pre = g
+  simp [flushSteps, FS.steps, FS.step, FS.pv, applyEffs_append, applyEffs, applyEff]
 
 /-- `Pager::allocate_page` inside a compaction: harmless at every step; afterwards the new frontier is durable -/
-theorem pblk_alloc {nd : Nat} (ps : PS) (hsk : SameKey p0.hdr ps.pm) (hnp : ps.pm.nextPage = nd) :
-    PBlk p0 live allowed covered nd ps (allocA ps).1 [] (nd + 1) (allocA ps).2.1 ∧ (allocA ps).2.2 = nd ∧
+theorem pblk_alloc {nd : Nat} (ps : PS) (hsk : SameKey p0.hdr ps.pm) (hnp : min ps.bm ps.pm.nextPage = nd) :
+    PBlk p0 live allowed covered lo nd ps (allocA ps).1 [] (nd + 1) (allocA ps).2.1 ∧ (allocA ps).2.2 = nd ∧
     EndsFlushed (allocA ps).1 (allocA ps).2.1.pm := by
-  obtain ⟨hpid, hpm, hnf, pre, hpre, hio⟩ := allocA_form ps
-  have hsk' : SameKey p0.hdr { ps.pm with nextPage := ps.pm.nextPage + 1 } :=
-    hsk.trans ⟨rfl, rfl, rfl, rfl, by simp⟩
-  have hS : ∀ s ∈ ioSteps (allocA ps).1, CStepOK p0 live allowed covered nd s := by
+  obtain ⟨hpid, hmin, hsame, hbmle, hnf, pre, hpre, hio⟩ := allocA_form ps
+  have hsk' : SameKey p0.hdr (allocA ps).2.1.pm := hsk.trans hsame
+  have hS : ∀ s ∈ ioSteps (allocA ps).1, CStepOK p0 live allowed covered lo nd s := by
     rw [hio]
     intro s hs
     rcases List.mem_append.mp hs with h | h
@@ -175,15 +199,18 @@ theorem pblk_alloc {nd : Nat} (ps : PS) (hsk : SameKey p0.hdr ps.pm) (hnp : ps.p
       simp [CStepOK, CEff]
     · simp [flushSteps] at h
       rcases h with rfl | rfl | rfl
-      · exact ⟨hsk', by simp; omega⟩
-      · simp [CStepOK, CEff]
+      · exact ⟨hsk', by have := hsame.np; omega⟩
+      · show nd ≤ (allocA ps).2.1.bm
+        omega
       · simp [CStepOK]
   have hfl : ∀ fs : FS, (fs.steps (ioSteps (allocA ps).1)).pj = [] ∧
-      (fs.steps (ioSteps (allocA ps).1)).pd.hdr = { ps.pm with nextPage := ps.pm.nextPage + 1 } :=
-    fun fs => steps_flushed fs _ _ ⟨pre, hio⟩
+      (fs.steps (ioSteps (allocA ps).1)).pd.hdr = (allocA ps).2.1.pm :=
+    fun fs => steps_flushed fs _ _ ⟨pre, _, hio⟩
+  have hflb : ∀ fs : FS, (fs.steps (ioSteps (allocA ps).1)).pd.bm = (allocA ps).2.1.bm := by
+    intro fs; rw [hio]; exact steps_flushed_bm fs pre _ _
   refine ⟨{ nofail := hnf, pager := pagerActs_alloc ps, setpm := onlySetPm_alloc ps, lastpm := lastPm_alloc ps _,
-            sk := by rw [hpm]; exact hsk', np := by rw [hpm]; simp [hnp], mono := Nat.le_succ _,
-            safe := ?_, post := ?_, vol := ?_ }, by rw [hpid, hnp], ⟨pre, by rw [hpm]; exact hio⟩⟩
+            sk := hsk', np := by rw [hmin, hnp], mono := Nat.le_succ _,
+            safe := ?_, post := ?_, vol := ?_ }, by rw [hpid, hnp], ⟨pre, _, hio⟩⟩
   · intro fs h
     exact safeAlong_mono (cstep_block _ fs h hS) (fun g hg => allImgsL_mono live g _ _ hg (fun p hp => ⟨_, hp⟩))
   · intro fs h
@@ -192,7 +219,7 @@ theorem pblk_alloc {nd : Nat} (ps : PS) (hsk : SameKey p0.hdr ps.pm) (hnp : ps.p
     intro p' hp'
     rw [hpj] at hp'
     rw [isImgL_nil _ _ _ hp']
-    exact (allImgsL_pd live _ _ hlast).raise (Nat.le_succ _) (by rw [hhdr]; simp [hnp])
+    exact (allImgsL_pd live _ _ hlast).raise (Nat.le_succ _) (by rw [hhdr]; omega) (by rw [hflb fs]; omega)
   · intro fs
     rw [pv_steps]
     apply st_allocEffs
@@ -215,28 +242,28 @@ theorem pblk_alloc {nd : Nat} (ps : PS) (hsk : SameKey p0.hdr ps.pm) (hnp : ps.p
       rcases h with rfl | rfl <;> trivial
 
 /-- one page write of the class -/
-theorem pblk_write {nd : Nat} {ps : PS} (hsk : SameKey p0.hdr ps.pm) (hnp : ps.pm.nextPage = nd) (e : PEff) (pid : Nat)
-    (he : CEff p0 live allowed covered nd e) :
-    PBlk p0 live allowed covered nd ps [ioA (.pg e pid)] [e] nd ps := by
-  have := PBlk.steps (p0 := p0) (live := live) (allowed := allowed) (covered := covered) hsk hnp [Step.pg e pid]
+theorem pblk_write {nd : Nat} {ps : PS} (hsk : SameKey p0.hdr ps.pm) (hnp : min ps.bm ps.pm.nextPage = nd) (e : PEff) (pid : Nat)
+    (he : CEff p0 live allowed covered lo nd e) :
+    PBlk p0 live allowed covered lo nd ps [ioA (.pg e pid)] [e] nd ps := by
+  have := PBlk.steps (p0 := p0) (live := live) (lo := lo) (allowed := allowed) (covered := covered) hsk hnp [Step.pg e pid]
     (by intro s hs; simp at hs; subst hs; exact he)
   simpa [effsOf] using this
 
-theorem pblk_sync {nd : Nat} {ps : PS} (hsk : SameKey p0.hdr ps.pm) (hnp : ps.pm.nextPage = nd) :
-    PBlk p0 live allowed covered nd ps [ioA .ps] [] nd ps := by
-  have := PBlk.steps (p0 := p0) (live := live) (allowed := allowed) (covered := covered) hsk hnp [Step.ps]
+theorem pblk_sync {nd : Nat} {ps : PS} (hsk : SameKey p0.hdr ps.pm) (hnp : min ps.bm ps.pm.nextPage = nd) :
+    PBlk p0 live allowed covered lo nd ps [ioA .ps] [] nd ps := by
+  have := PBlk.steps (p0 := p0) (live := live) (lo := lo) (allowed := allowed) (covered := covered) hsk hnp [Step.ps]
     (by intro s hs; simp at hs; subst hs; trivial)
   simpa [effsOf] using this
 
 /-- the data pages of a persisted segment after the first one -/
-theorem pblk_segParts (key need : Nat) (edges : List Nat) (hlo : p0.hdr.nextPage ≤ key) :
-    ∀ (js : List Nat) (nd : Nat) (ps : PS), SameKey p0.hdr ps.pm → ps.pm.nextPage = nd → key < nd →
-      PBlk p0 live allowed covered nd ps (segPartsA key need edges ps js).1
+theorem pblk_segParts (key need : Nat) (edges : List Nat) (hlo : lo ≤ key) :
+    ∀ (js : List Nat) (nd : Nat) (ps : PS), SameKey p0.hdr ps.pm → min ps.bm ps.pm.nextPage = nd → key < nd →
+      PBlk p0 live allowed covered lo nd ps (segPartsA key need edges ps js).1
         (js.map (fun j => PEff.segPart key j need edges)) (nd + js.length) (segPartsA key need edges ps js).2
-  | [], nd, ps, hsk, hnp, _ => by simpa [segPartsA] using PBlk.nil (live := live) (allowed := allowed) (covered := covered) hsk hnp
+  | [], nd, ps, hsk, hnp, _ => by simpa [segPartsA] using PBlk.nil (live := live) (lo := lo) (allowed := allowed) (covered := covered) hsk hnp
   | j :: js, nd, ps, hsk, hnp, hk => by
-    obtain ⟨ba, hpid, _⟩ := pblk_alloc (p0 := p0) (live := live) (allowed := allowed) (covered := covered) ps hsk hnp
-    have bw := pblk_write (p0 := p0) (live := live) (allowed := allowed) (covered := covered) ba.sk ba.np
+    obtain ⟨ba, hpid, _⟩ := pblk_alloc (p0 := p0) (live := live) (lo := lo) (allowed := allowed) (covered := covered) ps hsk hnp
+    have bw := pblk_write (p0 := p0) (live := live) (lo := lo) (allowed := allowed) (covered := covered) ba.sk ba.np
       (.segPart key j need edges) (allocA ps).2.2 ⟨hlo, by omega⟩
     have br := pblk_segParts key need edges hlo js (nd + 1) (allocA ps).2.1 ba.sk ba.np (by omega)
     have := (ba.append bw).append br
